@@ -95,6 +95,8 @@ class Exec:
         ev = []
         if len(self.cms) < c.max_nest:
             ev.append(["enter"])
+        if not self.cms:
+            ev.append(["enter_fault"])      # an exception (signal handler, MemoryError) strikes while the block is being entered
         if self.cms:
             ev.append(["exit"])
             ev.append(["exit_exc"])
@@ -164,6 +166,23 @@ class Exec:
                 self.block_reads = dict.fromkeys(SRCS, 0)
             if self.count_reads(log0) != dict.fromkeys(SRCS, 0):
                 self.viol("enter-reads", "entering the block read %r" % self.count_reads(log0))
+        elif k == "enter_fault":
+            # the platform half's oneshot_enter() does its work and then an exception arrives, before the block body starts:
+            # the with statement never runs its body, and the object must be left as if no block had been opened
+            plat = type(self.obj._proc)
+            orig = plat.oneshot_enter
+
+            def faulty(self_):
+                orig(self_)
+                raise KeyError("interrupted while entering")
+            plat.oneshot_enter = faulty
+            try:
+                cm = self.obj.oneshot()
+                out = outcome(cm.__enter__)
+            finally:
+                plat.oneshot_enter = orig
+            if not (out[0] == "exc" and out[1] == "KeyError"):
+                self.viol("enter-fault-swallowed", repr(out))
         elif k in ("exit", "exit_exc"):
             cm = self.cms.pop()
             if k == "exit":
